@@ -21,6 +21,7 @@ RULE += ("  " + 'Also: bursts of commands with exactly one user of the failing o
 RULE += ("  " + 'Also (round 6): the aborted-in-mid-transfer script belongs to the quick tier as well.')
 RULE += ("  " + 'Also: the failed upload command is simply given again and must work.')
 RULE += ("  " + 'Also (round 7): socket_timeout configured and downloads larger than every buffer, a fault at every back-end call (the reply must still be 451).')
+RULE += ("  " + 'Also (round 8): operating-system messages in another language with a line break in them, also on a latin-1 server.')
 ASSUMPTIONS = [
     "faults are raised inside aioftp's own universal_exception wrapper by a spying subclass of the shipped back end",
     "a data connection must be closed by the server only when the transfer was started (1xx mark sent)",
